@@ -281,3 +281,39 @@ func H06c_prune() {
 	}
 	vrtObserve("prune", len(subs))
 }
+
+// H06c_three: three subscribers on one filter with their own QoS; one of them
+// leaves; the others keep their own QoS.
+func H06c_three() {
+	F := vrtLevelName("F", vrtBound("N06levels", 2), true)
+	vrtAssume(specFilterValid(F))
+	subsv := [3]*int{new(int), new(int), new(int)}
+	var q [3]byte
+	MaxQosAllowed = 2
+	mt := NewMemProvider()
+	for i := range subsv {
+		q[i] = vrtByte("q")
+		vrtAssume(q[i] <= 2)
+		_, err := mt.Subscribe(F, q[i], subsv[i])
+		vrtAssert("C06.history_subscribe_validates", err == nil)
+	}
+	gone := vrtChoice("leaves", 3)
+	vrtAssert("C06.history_unsubscribe_ok", mt.Unsubscribe(F, subsv[gone]) == nil)
+	T := vrtLevelName("T", vrtBound("N06levels", 2), false)
+	p := vrtByte("p")
+	vrtAssume(p <= 2)
+	subs, qoss, err := vrtSubscribers(mt, T, p)
+	vrtAssert("C06.history_subscribers_ok", err == nil)
+	m := vrtConcretize(vrtIteInt(specMatch(F, T), 1, 0))
+	vrtAssert("C06.history_count", len(subs) == 2*m)
+	for i := range subs {
+		for k := range subsv {
+			if subs[i] == interface{}(subsv[k]) {
+				vrtAssert("C06.history_no_strangers", k != gone)
+				vrtAssert("C06.history_qos", qoss[i] == specMinQos(p, q[k]))
+			}
+		}
+	}
+	vrtObserve("three", len(subs))
+	vrtReach("C06.three")
+}
